@@ -6,6 +6,7 @@ from ..deck import Deck
 from ..runner import Scn, verdict, sha, Vacuous
 
 ID = 'C10'
+DECORATE = True
 LEVEL = 'model_checking'
 RULE = ('E1 enumeration of material cards: Z = 1..118 (all) x A in {000, 001, a typical A, 294}; then over a '
         '6-nuclide subset: library suffix {none, .70c, .80c}, keyword entries (nlib=70c, gas=1) before / '
